@@ -15,3 +15,5 @@ THEOREMS = {
 }
 MODULES = {"C05": ["QuillModel.Props.C05"], "C06": ["QuillModel.Props.C06"], "C09": ["QuillModel.Props.C09Backend"]}
 OBLIG = ["QuillModel.Obligations.BackendB"]
+OBLIG_BY_PROP = {"C05": ["QuillModel.Obligations.BackendB_C05", "QuillModel.Obligations.BackendB_Common"], "C06": ["QuillModel.Obligations.BackendB_C06", "QuillModel.Obligations.BackendB_C05", "QuillModel.Obligations.BackendB_Common"],
+                 "C09": ["QuillModel.Obligations.BackendB_C09", "QuillModel.Obligations.BackendB_Common"]}
